@@ -151,7 +151,7 @@ func C19Scenario() *Scenario {
 				return []byte(fmt.Sprintf(`{"status":{"call":%d},"children":[]%s}`, id, extra))
 			}
 			hdr := map[string]string{}
-			behaviours := []string{"unknown-field-etag", "200", "200-etag", "304", "412", "429-num", "429-date", "429-none", "429-junk", "other", "unknown-field", "duplicate-field", "bad-json", "stall", "refused", "200-etag", "200-etag-reused", "other-etag", "slow-body", "429-cut", "200-etag-cut"}
+			behaviours := []string{"unknown-field-etag", "200", "200-etag", "304", "412", "429-num", "429-date", "429-none", "429-junk", "other", "unknown-field", "duplicate-field", "bad-json", "stall", "refused", "200-etag", "200-etag-reused", "other-etag", "slow-body", "429-cut", "200-etag-cut", "200-etag-weak-twin"}
 			b := behaviours[w.T.Pick(len(behaviours), "behaviour")]
 			call.behaviour = b
 			call.expectKnown = true
@@ -171,6 +171,26 @@ func C19Scenario() *Scenario {
 				etagAt[e] = w.Now()
 				lastEtagStep[call.parent] = w.step
 				lastEtag[call.parent] = e
+				hdr["ETag"] = e
+				accept(int64(id))
+				return HookAnswer{Code: 200, Header: hdr, Body: body("")}
+			case "200-etag-weak-twin":
+				// the weak form of the validator last issued for this parent (W/<tag>), with
+				// another body: to the client a different ETag altogether - a 304 to the
+				// strong one must never be answered from this entry, nor the other way round
+				e := lastEtag[call.parent]
+				if e == "" || etagBad[e] || strings.HasPrefix(e, "W/") {
+					e = fmt.Sprintf("e%d", id)
+				} else {
+					e = "W/" + e
+				}
+				if _, again := etagBody[e]; again {
+					etagReused[e] = true
+				}
+				etagBody[e] = int64(id)
+				etagAt[e] = w.Now()
+				lastEtag[call.parent] = e
+				lastEtagStep[call.parent] = w.step
 				hdr["ETag"] = e
 				accept(int64(id))
 				return HookAnswer{Code: 200, Header: hdr, Body: body("")}
